@@ -164,6 +164,25 @@ Example C16_cache_only_after_warmup :
   = [[[0; 0; 0; 0; 0]; [1; 0; 1; 1; 0]; [0; 9]]].
 Proof. exact flip_example. Qed.
 
+(* THE CACHE KEY of hash method 'a' (Threads.key_a, compared with reusable.hash_contraction on query pairs each run)
+   determines the query up to what the stored POSITIONAL path depends on: equal keys => the same number of tensors
+   and, position by position, the same index multiset, the same output indices, the same sizes.  (With the model's
+   hypothesis "entries sit under their own fingerprint" this is what makes `TRecon q src` an answer for q.) *)
+Theorem C16_key_a_positional : forall i1 o1 s1 i2 o2 s2,
+  key_a i1 o1 s1 = key_a i2 o2 s2 ->
+  length i1 = length i2 /\
+  (forall k, Permutation.Permutation (nth k i1 []) (nth k i2 [])) /\
+  Permutation.Permutation o1 o2 /\ Permutation.Permutation s1 s2.
+Proof. exact key_a_positional. Qed.
+Print Assumptions C16_key_a_positional.
+
+Example C16_key_a_sees_tensor_order :
+  key_a_eqb [[0;1]; [1;2]; [2;3]] [0;3] [(0,2);(1,50);(2,3);(3,40)]
+            [[1;2]; [0;1]; [2;3]] [0;3] [(0,2);(1,50);(2,3);(3,40)] = false /\
+  key_a_eqb [[0;1]; [1;2]; [2;3]] [0;3] [(0,2);(1,50);(2,3);(3,40)]
+            [[1;0]; [2;1]; [2;3]] [3;0] [(3,40);(1,50);(2,3);(0,2)] = true.
+Proof. exact key_a_sees_tensor_order. Qed.
+
 (* verified checker: used by the correspondence on the results of every modelled run *)
 Theorem C16_checker_sound :
   forall orc ths, all_own_b orc ths = true -> Forall (results_own orc) ths.
